@@ -21,7 +21,7 @@ def exDb : List DbNode :=
    ⟨exKey 2 0, 3, exNode [(exKey 2 0, 30), (exKey 2 7, 31)]⟩,
    ⟨exKey 3 0, 4, exNode [(exKey 3 0, 40)]⟩]
 
-/-- F20: the all-zero key in front of the small integers `1 … m` (prefix 249 bits, first separator 1 bit), and a key that
+/-- F22: the all-zero key in front of the small integers `1 … m` (prefix 249 bits, first separator 1 bit), and a key that
 shares only 33 bits with them -/
 def f20Db (m : Nat) : List DbNode :=
   [⟨0, 1, exNode ((List.range (m + 1)).map fun i => (i, 100 + i))⟩]
